@@ -16,6 +16,13 @@ pub enum Kd {
     B { n: u32 },
 }
 
+/// a value whose JSON form nests as deep as it likes
+#[derive(Serialize, Deserialize, Clone, Debug, PartialEq, JsonSchema)]
+pub struct Tree {
+    pub v: u32,
+    pub kids: Vec<Tree>,
+}
+
 /// typed reply payload carrying a nonce and the reply handler's script
 #[derive(Serialize, Deserialize, Clone, Debug, PartialEq, JsonSchema)]
 pub struct Pay {
